@@ -4,7 +4,11 @@ import (
 	"github.com/reeflective/readline/internal/zzverif"
 )
 
-func zzScreenMatches(vt, ref *zzverif.VT, w int) bool {
+func zzScreenMatches(vt, ref *zzverif.VT, w int) bool { return zzScreenMatchesBut(vt, ref, w, false) }
+
+// zzScreenMatchesBut: with lastColLost, a character missing in the last column is tolerated
+// (the listed deferred-wrap erase defect); everything else must still match.
+func zzScreenMatchesBut(vt, ref *zzverif.VT, w int, lastColLost bool) bool {
 	maxRow := vt.MaxRow
 	if ref.MaxRow > maxRow {
 		maxRow = ref.MaxRow
@@ -19,6 +23,9 @@ func zzScreenMatches(vt, ref *zzverif.VT, w int) bool {
 			}
 			if okB && b == ' ' {
 				okB = false
+			}
+			if lastColLost && c == w-1 && okB && !okA {
+				continue
 			}
 			if okA != okB || (okA && a != b) {
 				return false
@@ -174,6 +181,11 @@ func ZZ_C04_Screen() {
 		}
 		if exact {
 			sfx += "/row-exactly-filled"
+			// the listed defect of this class erases the character in the last column; on
+			// one-line buffers anything else that differs is reported under a label of its own
+			if alpha != "nl" && alpha != "wide" && !zzScreenMatchesBut(vt, ref, w, true) {
+				sfx += "+other-cells-differ"
+			}
 		}
 		// multi-line buffers and wide characters: one label per shape of this frame's and
 		// the previous frame's buffer
